@@ -29,7 +29,7 @@ def case_rigid(kind, rot_idx, origin_idx, n_points=None):
     planar = kind == "cylinder2d"
     rots = bodies.rotations_2d() if planar else bodies.rotations_3d()
     rot = rots[rot_idx % len(rots)]
-    origin = [np.array([0.5, 0.5, 0.5]), np.array([1.0, 2.0, 3.0])][origin_idx]
+    origin = [np.array([0.5, 0.5, 0.5]), np.array([1.0, 2.0, 3.0]), np.zeros(3)][origin_idx]  # incl. a body centred exactly at the coordinate origin
     if planar:
         origin = origin * np.array([1, 1, 0])
     fails = []
@@ -206,6 +206,10 @@ def run(r) -> None:
         for ri in range(nrot):
             for oi in (0, 1):
                 rigid.append(dict(kind=kind, rot_idx=ri, origin_idx=oi))
+    for kind in bodies.RIGID:
+        nrot = len(bodies.rotations_2d() if kind == "cylinder2d" else bodies.rotations_3d())
+        for ri in (0, nrot - 1):
+            rigid.append(dict(kind=kind, rot_idx=ri, origin_idx=2))
     # marker-count alphabet (odd x odd plane grids have a marker exactly at the body origin; minimal counts)
     for kind, counts in bodies.RIGID_COUNTS.items():
         nrot = len(bodies.rotations_2d() if kind == "cylinder2d" else bodies.rotations_3d())
